@@ -163,13 +163,29 @@ class DeclRoundTrip:
             return ("Ok", r.fields["0"])
         return ("unreadable", repr(r)[:80])
 
-    def local(self, storage, precise, const):
-        """-> ('Ok', exported modifier names, re-read (storage, precise) or None) | ('Err'|'aborts'|'unreadable', why)"""
-        vd = I.Enum("LocalVariable", None, {"name": self.loc("v"), "type_id": I.Enum("TypeId", None, {"0": 7 if const else 3}), "storage_class": I.Enum("LocalStorage", storage), "precise": precise})
+    def local(self, storage, precise, const, array=False, init=None):
+        """-> ('Ok', exported modifier names, re-read (storage, precise) or None) | ('Err'|'aborts'|'unreadable', why)
+        array: the local is an array; init: None | 'expression' | 'aggregate' (what kind of initialiser it has)"""
+        # type ids of the model: 3 plain, 7 const, 30 array, 37 const array
+        ty = (30 if array else 3) + (4 if const and not array else 0) + (7 if const and array else 0)
+        vd = I.Enum("LocalVariable", None, {"name": self.loc("v"), "type_id": I.Enum("TypeId", None, {"0": ty}), "storage_class": I.Enum("LocalStorage", storage), "precise": precise})
         ext = self._ext(const)
         ext["get_local_variable"] = lambda a: vd
+        base = lambda a: (a[1].get() if isinstance(a[1], I.Ref) else a[1]).fields.get("0")
+        ext["TypeRegistry::remove_modifier"] = lambda a: I.Enum("TypeId", None, {"0": {7: 3, 37: 30}.get(base(a), base(a))})
+        ext["TypeRegistry::is_const"] = lambda a: base(a) in (7, 37)
+        ext["TypeRegistry::get_type_layer"] = lambda a: (I.Enum("TypeLayer", "Array", {"0": I.Enum("TypeId", None, {"0": 3}), "1": self.opt(2)}) if base(a) == 30 else
+                                                       I.Enum("TypeLayer", "Scalar", {"0": I.Enum("ScalarType", "Float32")}) if base(a) == 3 else
+                                                       I.Enum("TypeLayer", "Modifier", {"0": I.Opaque("modifier"), "1": I.Enum("TypeId", None, {"0": {7: 3, 37: 30}[base(a)]})}))
+        ext["TypeRegistry::extract_modifier"] = lambda a: (I.Enum("TypeId", None, {"0": {7: 3, 37: 30}.get(base(a), base(a))}), I.Enum("TypeModifier", None, {
+            "is_const": base(a) in (7, 37), "volatile": False, "row_major": False, "column_major": False, "unorm": False, "snorm": False}))
+        iv = None
+        if init == "expression":
+            iv = I.Enum("Initializer", "Expression", {"0": I.Opaque("initialiser expression")})
+        elif init == "aggregate":
+            iv = I.Enum("Initializer", "Aggregate", {"0": [I.Enum("Initializer", "Expression", {"0": I.Opaque("element")})] * 2})
         ctx = I.Enum("GenerateContext", None, {"module": I.Enum("Module", None, {"variable_registry": I.Opaque("variables"), "type_registry": I.Opaque("types")})})
-        r = self._run(self.gen_local, [I.Enum("VarDef", None, {"id": I.Enum("VariableId", None, {"0": 0}), "init": self.opt(None)}), ctx], ext)
+        r = self._run(self.gen_local, [I.Enum("VarDef", None, {"id": I.Enum("VariableId", None, {"0": 0}), "init": self.opt(iv)}), ctx], ext)
         if r[0] != "Ok":
             return r
         ty = r[1].fields["local_type"]
